@@ -1,6 +1,7 @@
 #!/bin/bash
 # tools_verify_seed.sh <ID> [checks...]: confirm a seeded change myself (suite passes with it, demo fails with / passes without),
 # then run the given checks (default: the property's own quick check) against /repo with the patch applied, and undo it.
+HERE="$(cd "$(dirname "$0")" && pwd)"
 ID=$1; shift
 PROP=${ID%[bcd]}            # later-round seeds are named <ID>b, <ID>c, ...
 CHECKS=${@:-$PROP}
@@ -14,7 +15,7 @@ git diff > $SD/patch.diff
 git apply -R $SD/patch.diff
 echo "== demo without the change (expect PASS)"; PYTHONPATH=$WT/src timeout 120 /venv/bin/python $SD/demo.py > /tmp/seed/$ID/demo_without.log 2>&1; echo "exit=$? $(tail -1 /tmp/seed/$ID/demo_without.log | cut -c1-200)"
 git apply $SD/patch.diff
-cd /verif
+cd "$HERE"
 if [ -n "${SEED_IN_WORKTREE:-}" ]; then
   # run the checks against the worktree itself (patch applied there), leaving /repo untouched (it may be in use by a long run)
   for c in $CHECKS; do
